@@ -101,6 +101,28 @@ def spec_float(Y, X, flag):
     return sum((c / n) * math.log(n * c / (cx[x] * cy[y])) for (x, y), c in cxy.items())
 
 
+def py_terms(Y, X, flag):
+    """Python transcription of MI/Model.v `enc (entry Y X flag)` (same integers, same order).  Used (a) as a cross-check of
+    every Coq evaluation and (b) on the large supporting cases of C03 where the quadratic Coq model is too slow."""
+    n = len(X)
+    corr = bool(flag) and list(X) != list(Y)
+    cy = Counter(Y)
+    class_values = sorted(cy)
+    cx = Counter(X)
+    pos = {}
+    for i, x in enumerate(X):
+        pos.setdefault(x, []).append(i)
+    strata = []
+    for v in sorted(cx):
+        k = cx[v]
+        if k == 1:
+            continue
+        real = Counter(Y[i] for i in pos[v])
+        spoof = Counter(Y[(i + k) % len(Y)] for i in pos[v])
+        strata.append((k, [real[c] for c in class_values if real[c]], [spoof[c] for c in class_values if spoof[c]]))
+    return (n, [cy[c] for c in class_values], strata, corr)
+
+
 # ---------------------------------------------------------------------------
 # generators
 
@@ -335,8 +357,9 @@ def run_cases(pid, cases, entry="entry"):
     return out
 
 
-def shrink(pid, case, still_bad, rounds=3):
-    """Greedy shrink by rows: keep a smaller case while `still_bad(list_of_cases) -> list of bool` says it still fails."""
+def shrink(pid, case, still_bad, rounds=3, keys=("Y", "X")):
+    """Greedy shrink by rows (of all row-aligned `keys`): keep a smaller case while
+    `still_bad(list_of_cases) -> list of bool` says it still fails."""
     cur = case
     for _ in range(rounds):
         n = len(cur["Y"])
@@ -352,14 +375,13 @@ def shrink(pid, case, still_bad, rounds=3):
             cands.append(("drop", a, min(n, a + step)))
         cs = []
         for cd in cands:
-            if cd[0] == "drop":
-                Y = cur["Y"][:cd[1]] + cur["Y"][cd[2]:]
-                X = cur["X"][:cd[1]] + cur["X"][cd[2]:]
-            else:
-                Y, X = cur["Y"][cd[0]:cd[1]], cur["X"][cd[0]:cd[1]]
-            if Y and len(Y) < n:
-                c2 = dict(cur)
-                c2["Y"], c2["X"] = Y, X
+            c2 = dict(cur)
+            for k in keys:
+                if cd[0] == "drop":
+                    c2[k] = cur[k][:cd[1]] + cur[k][cd[2]:]
+                else:
+                    c2[k] = cur[k][cd[0]:cd[1]]
+            if c2["Y"] and len(c2["Y"]) < n:
                 cs.append(c2)
         if not cs:
             break
@@ -389,13 +411,15 @@ def mirror_consistency(run, cases, results):
     worst = 0.0
     bad = None
     for c, (_, info, t) in zip(cases, results):
+        if py_terms(c["Y"], c["X"], c["flag"]) != t and bad is None:
+            bad = {"case": canon(c), "py_terms_differs_from_coq_terms": True}
         sv = spec_float(c["Y"], c["X"], c["flag"])
         d = abs(sv - info["model"])
         lim = 1e-9 * (info["sum_abs_terms"] + 1.0)
         if d > lim and bad is None:
             bad = {"case": canon(c), "spec_float": sv, "model_float": info["model"]}
         worst = max(worst, d)
-    run.oblige("mirror:eval_float(model terms) = float evaluation of the Spec.v formulas (1e-9 relative)", bad is None,
+    run.oblige("mirror:eval_float(Coq model terms) = float evaluation of the Spec.v formulas (1e-9 relative); py_terms = Coq terms", bad is None,
                json.dumps(bad)[:400] if bad else "worst |diff| %.3g" % worst)
     if bad:
         run.violation("broken-obligation", "mirror-consistency", found_input=False, extra=bad)
